@@ -26,9 +26,9 @@ func (prop) ID() string { return "C17" }
 // ---- generation
 
 func (prop) Gen(r *rand.Rand, tier string) []core.Case {
-	nWF, nMut, nRaw, nFl, nKey := 400, 320, 600, 250, 200
+	nWF, nMut, nRaw, nFl, nKey, nSeq := 400, 320, 600, 250, 200, 400
 	if tier == "thorough" {
-		nWF, nMut, nRaw, nFl, nKey = 5000, 4000, 20000, 6000, 5000
+		nWF, nMut, nRaw, nFl, nKey, nSeq = 5000, 4000, 20000, 6000, 5000, 6000
 	}
 	// number of large (> 2 MiB) images whose discovery may need full cookie scans in the model
 	budget := 30
@@ -57,7 +57,17 @@ func (prop) Gen(r *rand.Rand, tier string) []core.Case {
 			g.entryOps(&cs, "mut-entry", img, 1)
 		}
 	}
+	genSeqFixed(&cs)
+	genSeq(r, &cs, tier, &budget, nSeq)
 	return cs
+}
+
+// Shrink: a failing sequence is replayed with as few steps as still fail
+func (prop) Shrink(c core.Case) []core.Case {
+	if c.Op == "seq" {
+		return shrinkSeq(c)
+	}
+	return nil
 }
 
 // ckMask: which generated tables store a correct checksum (bit i = dirs()[i])
@@ -441,6 +451,8 @@ func (prop) Run(c core.Case) core.Outcome {
 		x.discover(c, parseWire(c.Args["img"]).build())
 	case "extractpsp", "extractbios", "patchpsp", "patchbios":
 		x.entryOp(c, parseWire(c.Args["img"]).build())
+	case "seq":
+		x.seq(c)
 	case "parsepsp":
 		data := core.UnHex(c.Args["data"])
 		orig := append([]byte(nil), data...)
